@@ -206,6 +206,18 @@ def run(check, an: Analysis):
                            'target=%s signal=%s args=%s)' % (
                                bool(appended), undated, target_ok, sig_ok, args_ok),
                            path=rules.path_lines(path))
+    for path in an.paths(cancel):
+        if not path.normal:
+            continue
+        unset = [e for e in path.events if e.kind == 'test'
+                 and e.get('key') == ('isnone', 'self._result')]
+        acted = _result_stores(path) or any(is_call_to(e, 'schedule') and e.depth == 0
+                                            for e in path.events)
+        if unset and key_truth(unset[0]) is True and not acted:
+            check.instance('K', 'cancel:live-task-always-cancelled', False,
+                           where_fn(cancel.fn), 'a cancel() of an unfinished task takes a '
+                           'path that neither finishes the task nor schedules a CancelTask',
+                           path=rules.path_lines(path))
     check.instance('K', 'cancel:three-cases', seen == {'finished', 'created', 'running'},
                    where_fn(cancel.fn), 'cancel distinguishes %s' % sorted(seen))
     # created branch is selected by the CREATED state
